@@ -23,7 +23,15 @@ func init() {
 	if v := os.Getenv("VERIF_REPO_DIR"); v != "" {
 		RepoDir = v
 	}
+	// developer override: where evidence and replay files go during mutation
+	// experiments, so that they never overwrite the committed ones.
+	if v := os.Getenv("VERIF_OUT_DIR"); v != "" {
+		OutDir = v
+	}
 }
+
+// OutDir is the directory under which evidence/ and replays/ are written.
+var OutDir = "/verif"
 
 // pkgDirs maps harness directory names to directories of /repo.
 var pkgDirs = map[string]string{
